@@ -10,8 +10,13 @@
         * the PV move comes first; nothing is handed out twice unless the PV move is not a move
           of the evasion batch list.
       The phased list may be LARGER than the batch evasion list: after skipping a PV move that was
-      the last move of its stage, GetNextMove refills with evasion = false (movegen.go:283), so
-      the next stage is generated unfiltered.
+      the last move of its stage list AFTER sorting, GetNextMove refills with evasion = false
+      (movegen.go:283), so the following stages up to the next non-empty one are generated
+      unfiltered.  With the engine's sort values this happens exactly when the PV move is the
+      only move of its stage, or a king capture (stage od3 has no updateSortValues, so the PV
+      move is not moved to the front there) that sorts last.  MovegenExamples.refill_corner_*
+      exhibit it on 3Bk3/1K3R1b/2Q5/6Pb/3P1p2/P2P2n1/5pp1/4q3 b - - 4 38 (engine and model
+      agree move by move).
     - [od_chess_evasion_legal]  in check, with a legality oracle that agrees with [Rules.is_legal]
       on pseudo-legal moves, and a PV move that (if selected) is a move of the evasion batch list:
       no move is handed out twice and the legal moves among the handed out ones are, as a
